@@ -9,7 +9,7 @@ from c10 import chunks
 LEVEL = "exploration"
 
 # macro sets used here: 0 (default) and 1 (two-segment module, name `event`)
-SETS = [0, 1, 4]
+SETS = [0, 1, 3, 4]
 
 
 def items_for(ms):
@@ -113,7 +113,7 @@ def run(tier, v):
     v.count(agg["n"])
     v.coverage["distinct_nontrivial"] += agg["distinct"]
     v.subspace("all sequences of 1..%d items from 27 decoys + 2 real statements x joiner {newline, blank, nothing} x tail {none, newline, "
-               "line comment at EOF without newline} x macro set {default, two-segment module, three modules with different names (+ 6 cross-pair decoys)} x style" % maxlen, agg["n"], exhaustive=True,
+               "line comment at EOF without newline} x macro set {default, two-segment module, non-ASCII module and name, three modules with different names (+ 6 cross-pair decoys)} x style" % maxlen, agg["n"], exhaustive=True,
                sequences_containing_real_statements=agg["nonvacuous"])
     for s in agg["samples"]:
         v.sample({"file": s[0], "expected_entries": s[1]})
